@@ -58,11 +58,11 @@ type Result<T> = result::Result<T, CanonError>;
 /// Encode a `ciborium::value::Value` to deterministic CBOR bytes.
 pub fn encode_value(val: &Value) -> Result<Vec<u8>> {
     let mut out = Vec::new();
-    enc_value(val, &mut out)?;
+    enc_value(val, &mut out, 0)?;
     Ok(out)
 }
 
-/// Maximum container nesting accepted by [`decode_value`]. Recursion depth is
+/// Maximum container nesting accepted by [`decode_value`] and emitted by [`encode_value`]. Recursion depth is
 /// otherwise bounded only by the input length (1 MiB of `0x81` overflows any stack).
 pub const MAX_DECODE_DEPTH: usize = 128;
 
@@ -76,7 +76,11 @@ pub fn decode_value(bytes: &[u8]) -> Result<Value> {
     Ok(v)
 }
 
-fn enc_value(v: &Value, out: &mut Vec<u8>) -> Result<()> {
+fn enc_value(v: &Value, out: &mut Vec<u8>, depth: usize) -> Result<()> {
+    // Same bound as the decoder: what is emitted must be readable back.
+    if depth > MAX_DECODE_DEPTH {
+        return Err(CanonError::Encode("nesting too deep".into()));
+    }
     match v {
         Value::Bool(b) => {
             out.push(if *b { 0xf5 } else { 0xf4 });
@@ -97,14 +101,14 @@ fn enc_value(v: &Value, out: &mut Vec<u8>) -> Result<()> {
         Value::Array(items) => {
             enc_len(4, items.len() as u64, out);
             for it in items {
-                enc_value(it, out)?;
+                enc_value(it, out, depth + 1)?;
             }
         }
         Value::Map(entries) => {
             let mut buf: Vec<(Value, Value, Vec<u8>)> = Vec::with_capacity(entries.len());
             for (k, v) in entries {
                 let mut kb = Vec::new();
-                enc_value(k, &mut kb)?;
+                enc_value(k, &mut kb, depth + 1)?;
                 buf.push((k.clone(), v.clone(), kb));
             }
 
@@ -119,7 +123,7 @@ fn enc_value(v: &Value, out: &mut Vec<u8>) -> Result<()> {
             enc_len(5, buf.len() as u64, out);
             for (_k, v, kb) in buf {
                 out.extend_from_slice(&kb);
-                enc_value(&v, out)?;
+                enc_value(&v, out, depth + 1)?;
             }
         }
         Value::Tag(_, _) => return Err(CanonError::Tag),
